@@ -331,6 +331,11 @@ class World(object):
         c = self.contracts.get(fn.fullname)
         if c is None:
             raise OutOfReach('no contract for callee %s' % fn.fullname)
+        cur = self.current
+        if cur is not None and c.name in (cur.decl.get('inline_callees') or ()):
+            # a small helper of the same class, itself under contract, executed inline (flagged: not modular at this call site)
+            it.ctx.flags.add('inlined callee %s in %s' % (c.name, cur.name))
+            return it.run_function(fn.node, fn.module, args, kwargs, func=fn)
         return c.apply(it, fn, args, kwargs)
 
     def instantiate(self, it, cls, args, kwargs):
@@ -350,8 +355,9 @@ class World(object):
         entry = {'kind': 'host', 'fn': fn, 'args': list(args), 'kwargs': dict(kwargs), 'result': None}
         ctx.log.append(entry)
         cur = self.current
-        if cur is not None and getattr(cur, 'on_host_call', None):
-            cur.on_host_call(it, fn, args, kwargs)
+        if cur is not None and 'havoc' in getattr(cur, 'fns', {}):
+            # what host code may do to the object under verification while it runs (the contract's `havoc` function)
+            it.call(cur.fns['havoc'], list(ctx.inputs_vals))
         c = ctx.choose([True, True, True])
         if c == 1:
             # raises an XLError instance (canonical or not)
@@ -553,7 +559,11 @@ class Loops(object):
 
     # -- concrete iteration
     def iterate_concrete(self, it, s, frame, items):
-        for x in items:
+        # like CPython's list iterator: by index over the live list (a body that mutates the list it iterates is seen)
+        i = 0
+        while i < len(items):
+            x = items[i]
+            i += 1
             it.assign(s.target, x, frame)
             try:
                 it.exec_block(s.body, frame)
@@ -564,7 +574,9 @@ class Loops(object):
 
     def exec_for(self, it, s, frame):
         iterable = it.eval(s.iter, frame)
-        if isinstance(iterable, (list, tuple)):
+        if isinstance(iterable, list):
+            return self.iterate_concrete(it, s, frame, iterable)
+        if isinstance(iterable, tuple):
             return self.iterate_concrete(it, s, frame, list(iterable))
         if isinstance(iterable, str):
             return self.iterate_concrete(it, s, frame, list(iterable))
@@ -934,7 +946,7 @@ class SpecAPI(object):
         self.table['OMITTED'] = _api.OMITTED
         self.table['datetime'] = ExtRef('datetime')
         self.table['math'] = ExtRef('math')
-        for nm in ('SEQ', 'ARGS', 'CONST', 'CHOICE', 'TUPLE', 'LISTN', 'OBJECT'):
+        for nm in ('SEQ', 'ARGS', 'CONST', 'CHOICE', 'TUPLE', 'LISTN', 'OBJECT', 'DDICT'):
             self.table[nm] = Builtin('dom.' + nm, (lambda f: (lambda it, a, k: f(*a, **k)))(getattr(_api, nm)))
 
     def lookup(self, name):
@@ -984,6 +996,15 @@ class SpecAPI(object):
 
     def s_same(self, it, a, k):
         x, y = a
+        if isinstance(x, dict) and isinstance(y, dict):
+            if set(x.keys()) != set(y.keys()):
+                return False
+            for kk in x:
+                if not self.s_same(it, [x[kk], y[kk]], {}):
+                    return False
+            return True
+        if isinstance(x, dict) or isinstance(y, dict):
+            return False
         if isinstance(x, (Obj, Closure, FuncRef, HostFn)) or isinstance(y, (Obj, Closure, FuncRef, HostFn)):
             return self.world.ops.identical(it, x, y)
         try:
@@ -1149,6 +1170,30 @@ class SpecAPI(object):
 
     def s_str_of_symbol(self, it, a, k):
         return a[0].names[a[1]]
+
+    def s_choice(self, it, a, k):
+        """ nondeterministic choice among n alternatives (forks) """
+        return it.ctx.choose([True] * a[0])
+
+    def s_ddict(self, it, a, k):
+        from .interp import DDict
+        d = DDict()
+        d.update(k)
+        return d
+
+    def s_listener(self, it, a, k):
+        m = self.world.module('hotxlfp.tinyemitter')
+        cls = self.world.module_attr(it, m, 'Listener')
+        return Obj(cls, {'fn': a[0], 'ctx': a[1]})
+
+    def s_has_attr(self, it, a, k):
+        return self.world.ops.hasattr(it, a[0], a[1])
+
+    def s_get_attr(self, it, a, k):
+        return self.world.ops.getattr(it, a[0], a[1])
+
+    def s_is_closure(self, it, a, k):
+        return isinstance(a[0], Closure)
 
     def s_calls(self, it, a, k):
         fn = a[0]
